@@ -32,22 +32,23 @@ type Obligation struct {
 }
 
 type Explorer struct {
-	eng       *Engine
-	fn        *ssa.Function
-	con       *Contract
-	fnKey     string
-	work      []*State
-	obls      []*Obligation
-	fresh     int
-	nextRef   int
-	cellSeq   int
-	notes     map[string]int
-	unmod     map[string]int // unmodelled calls
-	assumed   map[string]int // assumed (trusted / interface) contracts used
-	paths     int
-	errs      []string
-	inlined   map[string]int
-	forkCount map[string]int
+	eng              *Engine
+	fn               *ssa.Function
+	con              *Contract
+	fnKey            string
+	work             []*State
+	obls             []*Obligation
+	fresh            int
+	nextRef          int
+	freshSliceResult bool // applyContract: the result being created is declared fresh
+	cellSeq          int
+	notes            map[string]int
+	unmod            map[string]int // unmodelled calls
+	assumed          map[string]int // assumed (trusted / interface) contracts used
+	paths            int
+	errs             []string
+	inlined          map[string]int
+	forkCount        map[string]int
 }
 
 type engineError struct{ msg string }
